@@ -120,16 +120,29 @@ def run_check(prop, tier, base_seed, runs_override=None, workers=None):
     violations = 0
     seen_sigs = {}
     for seed, v in agg.violations:
-        seen_sigs.setdefault(v['sig'], seed)
+        seen_sigs.setdefault(v['sig'], []).append(seed)
     reported = 0
-    for sig, seed in sorted(seen_sigs.items(), key=lambda kv: kv[1]):
+    unreproducible = []
+    work = []
+    for sig, seeds_of in sorted(seen_sigs.items(), key=lambda kv: kv[1][0]):
+        work.append((sig, seeds_of[:6]))
+    for sig, seeds_of in work:
         if reported >= 5:
             violations += 1
             continue
-        trace = m.regenerate(seed, prop, quarantine)
-        r0 = m.replay(trace, prop)
+        # a violation seen by a worker must reproduce from its seed; if the first seed of a signature does not
+        # (state of the code under test leaking between runs of one worker process), the next ones are tried
+        trace = r0 = None
+        for seed in seeds_of:
+            trace = m.regenerate(seed, prop, quarantine)
+            r0 = m.replay(trace, prop)
+            if r0.violation is not None:
+                break
+            unreproducible.append((sig, seed))
+        seed = seeds_of[0] if r0 is None or r0.violation is None else seed
         flaky = False
         if r0.violation is None:
+            trace = m.regenerate(seed, prop, quarantine)
             # The worker saw a violation that the same seed does not show again.  The simulator owns every input
             # (self-test: digests agree across interpreters), so the code under test is itself nondeterministic.
             # Only C06 states determinism; there the history is amplified (many repeats of the same calc) until
@@ -141,7 +154,7 @@ def run_check(prop, tier, base_seed, runs_override=None, workers=None):
                     if r0.violation is not None:
                         break
             if amp is None or r0.violation is None:
-                raise core.HarnessError(f'seed {seed}: violation {sig} did not reproduce from its seed')
+                continue
             trace, flaky = amp, True
         small = trace if flaky else m.shrink(trace, prop, r0.violation.clause)
         r1 = m.replay(small, prop, keep_log=True)
@@ -182,8 +195,13 @@ def run_check(prop, tier, base_seed, runs_override=None, workers=None):
         violations += 1
         reported += 1
 
+    if unreproducible and not any(l.startswith('VIOLATION') for l in out_lines):
+        # nothing reproducible to report, but workers did see violations: never a pass
+        raise core.HarnessError(f'{len(unreproducible)} violation(s) seen by workers did not reproduce from their seeds, e.g. {unreproducible[0]}: '
+                                'the code under test (or the harness) keeps state between runs')
     wall = core.now_wall() - t0
     cov = m.coverage(prop, agg, tier, wall, workers)
+    cov['violations_not_reproducible_from_seed'] = len(unreproducible)
     cov['known_findings_hit'] = known_hit
     cov['regression_histories_replayed'] = regress
     cov['components'] = COMPONENTS
